@@ -47,7 +47,7 @@ func init() {
 			return 8
 		},
 		Run:          run,
-		ChildTimeout: func(tier string) time.Duration { return 30 * time.Minute },
+		ChildTimeout: func(tier string) time.Duration { return 90 * time.Minute }, // generous: thorough is ~5 CPU-minutes per child on an idle machine
 		MinEvals: func(tier string) int {
 			if tier == "thorough" {
 				return 1000000
